@@ -198,6 +198,7 @@ class C01(Prop):
                             allowed=None if rng.random() < 0.7 else rng.sample(mito.CAPS, 3))
         names = rng.sample(["tool1", "Calc", "get_x", "f0", "k"], rng.choice([1, 2, 2, 3]))
         ver = {n: 0 for n in names}
+        exc_of = {n: None for n in names}
         live = set()
 
         def call(n):
@@ -206,9 +207,13 @@ class C01(Prop):
         for _ in range(rng.choice([6, 9, 12, 16])):
             n = rng.choice(names)
             k = rng.random()
-            if k < 0.30 or n not in live and k < 0.5:
+            if n in live and k < 0.12:
+                # the registered tool object changed in place: it now needs other capabilities (same body, same version)
+                lines.append(mito.tool_line(n, rng.sample(mito.CAPS, rng.choice([0, 1, 2])), ver[n], exc_of[n], "mut"))
+            elif k < 0.30 or n not in live and k < 0.5:
                 ver[n] += 1
                 exc = rng.choice(mito.EXC_KINDS) if rng.random() < 0.35 else None
+                exc_of[n] = exc
                 lines.append(mito.tool_line(n, rng.sample(mito.CAPS, rng.choice([0, 0, 1])), ver[n], exc,
                                             rng.choice(mito.ROUTES[:3] + ["fn"])))
                 live.add(n)
@@ -467,6 +472,12 @@ class C01(Prop):
                           mito.met_line("auto", "calc(t0)"), mito.met_line("tool", "Calc(t0)"),
                           mito.met_line("tool", "TOOL1(t0)"), mito.met_line("math", "tool1(t0)")]
                 lines.append(mito.tool_line("tool1", caps, 2, "nodoc_msg", route))      # re-registered: the new body
+                lines += [mito.met_line("auto", "tool1(t0)"), mito.met_line("auto", "Calc(t1)")]
+                # the registered objects changed in place after they were vetted: what they need NOW decides
+                lines.append(mito.tool_line("Calc", ["exec_code"], 0, None, "mut"))
+                lines += [mito.met_line("auto", "Calc(t1)"), mito.met_line("tool", "Calc()")]
+                lines.append(mito.tool_line("tool1", [], 2, "nodoc_msg", "mut"))
+                lines.append(mito.tool_line("Calc", [], 0, None, "mut"))
                 lines += [mito.met_line("auto", "tool1(t0)"), mito.met_line("auto", "Calc(t1)")]
                 cases.append({"lines": lines, "note": "registration route " + route})
         spaces.append({"name": f"{len(mito.ROUTES)} registration routes x capability settings x re-registration",
